@@ -157,7 +157,29 @@ func (g *G) DerivedEvent(p *board.Position, turn board.Color) {
 			pins = append(pins, M{"side": int(c), "kind": proj.Kind(k), "res": res})
 		}
 	}
-	g.W.Emit(M{"op": "derived", "pos": proj.Position(p, turn), "caps": caps, "pins": pins})
+	// "is this square attacked / defended by pieces of these kinds": a few kind lists, with and without pawns
+	lists := [][]board.Piece{{board.King}, {board.Pawn}, {board.Queen, board.Rook, board.Bishop}, {board.King, board.Queen},
+		{board.Queen, board.Rook, board.Knight, board.Bishop}, {board.Knight, board.Pawn}, {board.King, board.Queen, board.Rook, board.Knight, board.Bishop, board.Pawn}}
+	var by []M
+	for _, l := range lists {
+		kinds := []int{}
+		for _, k := range l {
+			kinds = append(kinds, proj.Kind(k))
+		}
+		for c := board.ZeroColor; c < board.NumColors; c++ {
+			att, def := []int{}, []int{}
+			for s := 0; s < 64; s++ {
+				if p.IsAttackedBy(c, proj.FromSq(s), l) {
+					att = append(att, s)
+				}
+				if p.IsDefendedBy(c, proj.FromSq(s), l) {
+					def = append(def, s)
+				}
+			}
+			by = append(by, M{"side": int(c), "kinds": kinds, "attacked": att, "defended": def})
+		}
+	}
+	g.W.Emit(M{"op": "derived", "pos": proj.Position(p, turn), "caps": caps, "pins": pins, "by": by})
 }
 
 func kingSq(p *board.Position, c board.Color) int {
